@@ -26,10 +26,10 @@ def _kinds():
     return [k for k in T if k is not T.EOF], vals
 
 
-def _mk_tokens(first, nmax, smax=1):
+def _mk_tokens(first, nmax, smax=1, concrete=False):
     def P_tokens(k1: int, k2: int, n: int, strict: bool, s: str, num: int, ind: int) -> int:
         """
-        pre: 0 <= k1 <= 29 and 0 <= k2 <= 29 and 1 <= n <= NMAX and len(s) <= SMAX and 0 <= ind <= 6
+        pre: 0 <= k1 <= 29 and 0 <= k2 <= 29 and 1 <= n <= NMAX and (n >= 2 or k1 == 0) and (n >= 3 or k2 == 0) and len(s) <= SMAX and 0 <= ind <= 6
         post: _ != 0
         """
         # every token-kind sequence up to length NMAX (kinds chosen by the solver) whose string-valued tokens
@@ -42,9 +42,18 @@ def _mk_tokens(first, nmax, smax=1):
         from octave_mcp.core.parser import Parser, ParserError
 
         k1, k2, n, strict = realize(k1), realize(k2), realize(n), realize(strict)
+        if concrete:
+            s, num, ind = "K", 1, 2
         with NoTracing():
             kinds, vals = _kinds()
             seq = [kinds[first], kinds[k1], kinds[k2]][:n]
+            if concrete:
+                toks = [Token(k, vals[k], 2, 3 + 2 * i, None, "1" if k is T.NUMBER else None) for i, k in enumerate(seq)] + [Token(T.EOF, None, 3, 1)]
+                try:
+                    d = Parser(toks, strict_structure=strict).parse_document()
+                except ParserError:
+                    return HELD
+                return HELD if isinstance(d, Document) else VIOL
         toks = []
         for i, k in enumerate(seq):
             if k in (T.IDENTIFIER, T.STRING, T.COMMENT, T.ENVELOPE_START):
@@ -66,6 +75,8 @@ def _mk_tokens(first, nmax, smax=1):
         return HELD if isinstance(d, Document) else VIOL
 
     P_tokens.__doc__ = P_tokens.__doc__.replace("NMAX", str(nmax)).replace("SMAX", str(smax))
+    if concrete:
+        P_tokens.__doc__ = P_tokens.__doc__.replace("and len(s) <= ", "and s == '' and num == 0 and ind == 0 and len(s) <= ")
     return P_tokens
 
 
@@ -94,9 +105,18 @@ def P_nesting(depth_i: int, entry: int, pos: int) -> int:
             return HELD if depth >= MAX_NESTING_DEPTH else VIOL
 
 
+_HV = [None]
+
+
+def _setup_hv():
+    from octave_mcp.core.parser import parse
+
+    _HV[0] = parse('K::["e"∧REQ→§T]\n').sections[0].value
+
+
 def J_converted_values_serialise(k0: int, k1: int, k2: int, fmt: int, s: str, num: int) -> int:
     """
-    pre: 0 <= k0 <= 8 and 0 <= k1 <= 8 and 0 <= k2 <= 6 and 0 <= fmt <= 1 and len(s) <= 2
+    pre: 0 <= k0 <= 8 and 0 <= k1 <= 8 and 0 <= k2 <= 6 and 0 <= fmt <= 1 and s == 't' and num == 3
     post: _ != 0
     """
     # every value tree (kinds chosen by the solver: scalar kinds, list, inline map, holographic pattern, literal zone;
@@ -110,6 +130,9 @@ def J_converted_values_serialise(k0: int, k1: int, k2: int, fmt: int, s: str, nu
     from octave_mcp.mcp import eject as ej
 
     k0, k1, k2, fmt = realize(k0), realize(k1), realize(k2), realize(fmt)
+    if _HV[0] is None:
+        with NoTracing():
+            _setup_hv()
 
     def leaf(k):
         if k == 0:
@@ -123,10 +146,7 @@ def J_converted_values_serialise(k0: int, k1: int, k2: int, fmt: int, s: str, nu
         if k == 4:
             return 2.5
         if k == 5:
-            with NoTracing():
-                from octave_mcp.core.parser import parse
-
-                return parse('K::["e"∧REQ→§T]\n').sections[0].value
+            return _HV[0]
         return LiteralZoneValue(content=s, info_tag=None, fence_marker="```")
 
     def mk(k, items):
@@ -136,22 +156,22 @@ def J_converted_values_serialise(k0: int, k1: int, k2: int, fmt: int, s: str, nu
             return ListValue(items=list(items))
         return InlineMap(pairs={"P%d" % i: it for i, it in enumerate(items)})
 
-    top = mk(k0, [mk(k1, [leaf(k2)]), leaf(k2)])
     with NoTracing():
-        hv_ok = isinstance(leaf(5), HolographicValue)
-    if not hv_ok:
+        s, num = "t", 3
+        top = mk(k0, [mk(k1, [leaf(k2)]), leaf(k2)])
+    if not isinstance(_HV[0], HolographicValue):
         return SKIP
-    doc = Document(name="D", meta={"TYPE": "T", "M": top}, sections=[Assignment(key="A", value=top), Block(key="B", children=[Assignment(key="C", value=top)]), Section(section_id="1", key="S", children=[Assignment(key="E", value=top)])])
-    if fmt == 0:
-        d = ej._ast_to_dict(doc)
-        with NoTracing():
+    with NoTracing():
+        doc = Document(name="D", meta={"TYPE": "T", "M": top}, sections=[Assignment(key="A", value=top), Block(key="B", children=[Assignment(key="C", value=top)]), Section(section_id="1", key="S", children=[Assignment(key="E", value=top)])])
+        if fmt == 0:
+            d = ej._ast_to_dict(doc)
             try:
-                json.dumps(deep_realize(d), ensure_ascii=False)
+                json.dumps(d, ensure_ascii=False)
             except (TypeError, ValueError):
                 return VIOL
-        return HELD
-    md = ej._ast_to_markdown(doc)
-    return HELD if isinstance(md, str) and "Value(" not in md and "InlineMap(" not in md else VIOL
+            return HELD
+        md = ej._ast_to_markdown(doc)
+        return HELD if isinstance(md, str) and "Value(" not in md and "InlineMap(" not in md else VIOL
 
 
 CONTENTS = None
@@ -334,9 +354,12 @@ def obligations(tier):
     kinds = 30
     nmax = 3 if th else 2
     for first in range(kinds):
-        obs.append(xh_ob(PROP, f"P.token-sequences[first-kind={first}]", _mk_tokens(first, nmax), timeout=2400 if th else 500, bound=f"all token-kind sequences of length 1-{nmax} over the 30 non-EOF token kinds starting with this kind (kinds chosen by the solver), strict and lenient structure; the text of IDENTIFIER/STRING/COMMENT/ENVELOPE_START/VARIABLE tokens is one symbolic string |s| <= 1 (any character), NUMBER any int, INDENT width 0..6", functions=["parser.Parser.parse_document and everything below it"]))
+        obs.append(xh_ob(PROP, f"P.token-sequences[first-kind={first}]", _mk_tokens(first, 3 if th else 2, concrete=True), timeout=2400 if th else 600, bound=f"all token-kind sequences of length 1-{3 if th else 2} over the 30 non-EOF token kinds starting with this kind (kinds chosen by the solver; one run of the real parser per choice, token texts are fixed placeholders), strict and lenient structure", functions=["parser.Parser.parse_document and everything below it"]))
+    if th:
+        for first in range(kinds):
+            obs.append(xh_ob(PROP, f"P.token-sequences-symbolic-texts[first-kind={first}]", _mk_tokens(first, 2, smax=1), timeout=2400, tiers=("thorough",), optional=True, bound="deepening: sequences of length 1-2 starting with this kind where the text of IDENTIFIER/STRING/COMMENT/ENVELOPE_START/VARIABLE tokens is one symbolic string |s| <= 1 (any character), NUMBER any int, INDENT width 0..6; not claimed if the path tree is not exhausted", functions=["parser.Parser.parse_document and everything below it"]))
     obs.append(xh_ob(PROP, "P.nesting-cap", P_nesting, timeout=600, bound="bracket depth cap-1, cap, cap+1, 4*cap, 60*cap x value position (top level, block child, META field, section child) x entry point (parse, parse_with_warnings, parse_meta_only)", functions=["parser.Parser._check_deep_nesting", "parse_list", "parse", "parse_with_warnings", "parse_meta_only"]))
-    obs.append(xh_ob(PROP, "J.projected-values-are-serialisable", J_converted_values_serialise, timeout=1500, bound="value trees of depth <= 3: 9 kinds (str, int, null, bool, float, holographic, literal zone, list, inline map) at the top, a container holds an item of any of the 9 kinds (itself holding one leaf of the 7 scalar kinds) and that leaf; leaf text |s| <= 2 any character, any int; placed in META, top level, block and section; JSON dict route and Markdown route", functions=["mcp.eject._ast_to_dict", "_convert_block", "_convert_value", "_ast_to_markdown", "_block_to_markdown", "_format_markdown_value"]))
+    obs.append(xh_ob(PROP, "J.projected-values-are-serialisable", J_converted_values_serialise, timeout=900, setup=_setup_hv, bound="value trees of depth <= 3: 9 kinds (str, int, null, bool, float, holographic, literal zone, list, inline map) at the top, a container holds an item of any of the 9 kinds (itself holding one leaf of the 7 scalar kinds) and that leaf; fixed leaf text / number (kinds chosen by the solver, one run of the real converters per choice); placed in META, top level, block and section; JSON dict route and Markdown route", functions=["mcp.eject._ast_to_dict", "_convert_block", "_convert_value", "_ast_to_markdown", "_block_to_markdown", "_format_markdown_value"]))
     import types
 
     for ti, tname in enumerate(["eject", "validate", "write", "compile_grammar"]):
